@@ -48,8 +48,20 @@ def run(ctx):
         part = ctx.path("part%d.ndjson" % (b // B))
         vlib.write_ndjson(part, [{k: v for k, v in r.items() if k != "text" or r["outcome"] in ("crash", "hang")} for r in rows[b:b + B]])
         vlib.validate_cases(ctx, "Mutate", "Mutate.cfg", part, label="part%d" % (b // B), timeout=3300, **kw)
+    # the diagnostic list itself (package status: Add / AddError / Sort / Dedupe), Diagnostics.tla: design properties by TLC, then every
+    # program "report up to three errors, then sort / dedupe / both" replayed in the real package and compared after every step
+    r = ctx.tlc("Diagnostics", "DiagnosticsDesign.cfg", timeout=900, continue_=False, name="diag-design")
+    for v in r.violations:
+        raise vlib.Infra("design model Diagnostics.tla violated (%s): a spec defect, not a verdict" % v["name"])
+    dc = ctx.path("diag.ndjson")
+    ctx.tlc("DiagGen", "DiagGen.cfg", workers=1, timeout=900, name="diaggen", env={"VERIF_OUT": dc})
+    do = ctx.path("diag.rec.ndjson")
+    ctx.vhrun(["diag-run", dc, do], timeout=600)
+    dsig = lambda c: "status:%s:%s" % (" ".join("%d/%d/%d" % (e["file"], e["off"], e["msg"]) for e in c["adds"]), "+".join(c["tail"]))
+    vlib.validate_cases(ctx, "DiagTrace", "DiagTrace.cfg", do, label="status", timeout=1800, sig=dsig, sigv=lambda c, rec, v: v + ":" + dsig(c), rerun=None,
+                        input_keys=["adds", "tail"], observed_keys=["lists", "crash"], nontrivial=lambda c: len(c["lists"][0]) > len(c["lists"][-1]))
     ctx.cov["rule"] = ("%d grammar texts: the 60 seeds unmutated plus seeded single and double mutations (delete/duplicate/swap/replace token, delete/duplicate line, truncate, "
                        "insert or substitute nasty bytes, splice a foreign line, rename an identifier occurrence); each compiled by the real compiler in a sub-process pool; TLC "
                        "admits only Ok / Errors outcomes and checks every diagnostic's range, line and column. Non-trivial: texts that produce at least two diagnostics; distinct "
-                       "by (seed, operator, outcome)." % len(rows))
+                       "by (seed, operator, outcome). The diagnostic list (status.Add/AddError/Sort/Dedupe): all 21840 programs over 16 errors replayed against Diagnostics.tla." % len(rows))
     ctx.assumptions += ["js.tm (60 kB+) is not in the mutation pool for time", "crash detection is an observation of the sub-process, TLC rejects the trace"]
